@@ -658,7 +658,81 @@ def r5(prog, rep):
         rep.violation("C12.R5", "SolverWrapper._apply_pending_bound_updates:queues-cleared",
                       f"queues not cleared on every exit: {sorted(need - cleared)} would be applied again before the next optimize()", f.loc())
     apply_before_run(prog, rep, "C12.R5")
+    solution_caches_reset(prog, rep, "C12.R5")
     return
+
+
+def solution_caches_reset(prog, rep, RID: str):
+    """An attribute of the wrapper that memoises values read from the solver's solution must be invalidated after *every*
+    solver run (on every path of optimize() from the run to the exit): otherwise a second solve of the same wrapper hands out
+    the values of the first."""
+    from sa.flow import Flow
+    cls = prog.cls("SolverWrapper")
+    caches = {}
+    for m in cls.methods.values():
+        if m.name in ("__init__", "optimize"):
+            continue
+        guards = {dotted(t.left) for t in ast.walk(m.node) if isinstance(t, ast.Compare) and len(t.ops) == 1 and isinstance(t.ops[0], (ast.Is, ast.IsNot)) and
+                  isinstance(t.comparators[0], ast.Constant) and t.comparators[0].value is None and (dotted(t.left) or "").startswith("self.")}
+        for st in walk_no_nested(m.node):
+            if isinstance(st, ast.Assign) and len(st.targets) == 1 and (dotted(st.targets[0]) or "").startswith("self.") and dotted(st.targets[0]) in guards:
+                if any(isinstance(c, ast.Call) and (dotted(c.func) or "").startswith("self.solver.") for c in ast.walk(st.value)) or \
+                        any(isinstance(c, ast.Call) and re.search(r"getSolution|col_value|allVariableValues|getVars|\.X\b", norm(c)) for c in ast.walk(st.value)):
+                    caches[dotted(st.targets[0])] = m
+    key0 = "SolverWrapper:solution-caches"
+    if not caches:
+        rep.ok(RID, key0, "the wrapper keeps no memo of solution values (every read goes to the solver)", cls.methods["optimize"].loc(), nontrivial=False)
+        return
+    g = prog.own_method("SolverWrapper", "optimize")
+
+    def run_sites(node):
+        out = []
+        for n in ast.walk(node):
+            if isinstance(n, ast.Call) and (dotted(n.func) == "self.solver.optimize" or
+                                            any(dotted(a) == "self.solver.optimize" for a in list(n.args) + [k.value for k in n.keywords])):
+                out.append(n)
+        return out
+
+    for attr, owner in sorted(caches.items()):
+        class MustReset(Flow):
+            def __init__(self):
+                self.bad = []
+
+            def initial(self, func):
+                return frozenset([False])
+
+            def join(self, a, b):
+                return a | b
+
+            def transfer(self, stmt, state):
+                if state is None:
+                    return state
+                if any(run_sites(v) for v in [getattr(stmt, f_, None) for f_ in ("value", "test", "iter")] if isinstance(v, ast.AST)):
+                    state = frozenset([True])
+                if isinstance(stmt, ast.Assign) and any(dotted(t) == attr for t in stmt.targets):
+                    state = frozenset([False])
+                return state
+
+            def refine(self, test, pol, state):
+                if state is not None and run_sites(test):
+                    return frozenset([True])
+                return state
+
+            def on_return(self, stmt, state):
+                if state is not None and True in state and self.quiet == 0:
+                    self.bad.append(stmt)
+
+            def on_fallthrough(self, func, state):
+                if state is not None and True in state and self.quiet == 0:
+                    self.bad.append(func)
+        fl = MustReset()
+        fl.run(g.node)
+        key = f"SolverWrapper.optimize:reset({attr})"
+        if fl.bad:
+            rep.violation(RID, key, f"`{attr}` (memo of solution values filled in {owner.qualname}) is not invalidated on some path of optimize() after the solver ran: "
+                          "a later read returns the values of an earlier solve (wrong values, or IndexError after variables were added)", g.loc(fl.bad[0]) if hasattr(fl.bad[0], "lineno") else g.loc())
+        else:
+            rep.ok(RID, key, f"`{attr}` is invalidated after the solver run on every path of optimize()", g.loc())
 
 
 def apply_before_run(prog, rep, RID: str):
